@@ -835,25 +835,25 @@ OWNER = {"synthetic": "c19.synthetic", "theta": "c19.theta", "1d": "c19.chain1d"
 def run(ctx, corr=True):
     rng = ctx.rng
     synthetic_probe(ctx, case_synthetic(rng, witness=True), corr)
-    for _ in range(ctx.n(80, 1000)):
+    for _ in range(ctx.n(80, 600)):
         synthetic_probe(ctx, case_synthetic(rng), corr)
-    for i, fam in enumerate(zoo.FAMILIES * ctx.n(30, 400)):
+    for i, fam in enumerate(zoo.FAMILIES * ctx.n(30, 250)):
         chain1d_probe(ctx, case_1d(rng, fam, i), corr)
-    for _ in range(ctx.n(150, 2500)):
+    for _ in range(ctx.n(150, 1500)):
         chainnd_probe(ctx, case_nd(rng, 2), corr)
-    want3, tries = ctx.n(8, 250), 0        # d = 3: a couple in quick, the bulk in thorough
+    want3, tries = ctx.n(8, 150), 0        # d = 3: a couple in quick, the bulk in thorough
     while ctx.branches["c19.chainNd:d3"] < want3 and tries < 3 * want3:
         chainnd_probe(ctx, case_nd(rng, 3), corr)
         tries += 1
-    for _ in range(ctx.n(150, 2500)):
+    for _ in range(ctx.n(150, 1500)):
         theta_probe(ctx, case_theta(rng), corr)
-    for _ in range(ctx.n(100, 1200)):
+    for _ in range(ctx.n(100, 800)):
         spreads_probe(ctx, case_spreads(rng, "1d"), corr)
-    for _ in range(ctx.n(40, 500)):
+    for _ in range(ctx.n(40, 300)):
         spreads_probe(ctx, case_spreads(rng, "nd"), corr)
-    for _ in range(ctx.n(300, 4000)):
+    for _ in range(ctx.n(300, 2500)):
         deftimes_probe(ctx, case_deftimes(rng), corr)
-    for _ in range(ctx.n(100, 1500)):
+    for _ in range(ctx.n(100, 1000)):
         payoff_probe(ctx, case_payoff(rng), corr)
     for _ in range(ctx.n(4, 40)):            # the hypothesis a < -h of the credit-grid theorem, run at the excluded points
         fam, params = draw_margin(rng)
